@@ -527,7 +527,19 @@ func TestCheck(t *testing.T) {
 			for i := lo; i < hi; i++ {
 				lit := lits[i]
 				rat, okRat := new(big.Rat).SetString(lit)
-				for _, u := range unitTexts {
+				units := append([]string{}, unitTexts...)
+				for _, bu := range append(append([]string{}, badUnits...), "0kB", "7", " B", "1", "00", "_kB", "1kB", "0") {
+					printable := true
+					for k := 0; k < len(bu); k++ {
+						if bu[k] < 0x20 || bu[k] > 0x7e || bu[k] == '"' || bu[k] == '\\' {
+							printable = false
+						}
+					}
+					if printable && (i%4 == 0 || len(bu) <= 3) { // unknown units (as they are, no escaping needed) for a quarter of the literals
+						units = append(units, bu)
+					}
+				}
+				for _, u := range units {
 					doc := `{"value":` + lit + `,"unit":"` + u + `"}`
 					c := Case{Kind: "text", Text: vkit.B(doc), Rule: int(size.RuleEnableJSONObjectForm)}
 					got, err := size.DefaultParser(doc, size.RuleEnableJSONObjectForm)
@@ -657,6 +669,28 @@ func TestCheck(t *testing.T) {
 					judge(Case{Kind: "text", Text: vkit.B(y), Rule: rule}, w)
 				}
 				w.EvalRandom(vkit.Hash64("W3", x), true)
+			}
+		})
+	})
+
+	r.Phase("F: texts and New judged while a custom package-level Formatter (bytes only) is installed", func() {
+		old := size.Formatter
+		defer func() { size.Formatter = old }()
+		size.Formatter = func(buf []byte, s size.Size, f size.Format) ([]byte, error) {
+			return append(strconv.AppendUint(buf, uint64(s), 10), " bytes"...), nil
+		}
+		r.Serial(func(w *vkit.W) {
+			for _, text := range []string{"0", "7B", "1kB", "1 000 KiB", "15 EiB", "16 EiB", "0 ZB", "1 ZB", "18446744073709551615", "18446744073709551616", "1 xB", "7 bytes", "", "-1", "1.5kB"} {
+				for _, rule := range []int{0, 1} {
+					judge(Case{Kind: "text", Text: vkit.B(text), Rule: rule}, w)
+					w.EvalRandom(vkit.Hash64("F", text, strconv.Itoa(rule)), true)
+				}
+			}
+			for _, typ := range []string{"uint64", "float64", "int8"} {
+				for _, u := range []string{"", "B", "kB", "EiB", "ZB", "xB"} {
+					judge(Case{Kind: "new", Type: typ, Bits: 1, Unit: vkit.B(u)}, w)
+					w.EvalRandom(vkit.Hash64("Fn", typ, u), true)
+				}
 			}
 		})
 	})
